@@ -1,0 +1,21 @@
+//go:build verif
+
+package haproxy
+
+import (
+	"github.com/jcmoraisjr/haproxy-ingress/pkg/haproxy/socket"
+)
+
+// VerifDynUpdate runs the dynamic updater of an instance against the given
+// socket. It returns whether the update was applied without needing a reload
+// and the number of commands sent. Used by the verification harness only.
+func VerifDynUpdate(i Instance, sock socket.HAProxySocket) (updated bool, cmdCnt int) {
+	inst := i.(*instance)
+	if inst.config == nil {
+		inst.Config()
+	}
+	u := inst.newDynUpdater()
+	u.socket = sock
+	updated = u.update()
+	return updated, u.cmdCnt
+}
